@@ -271,7 +271,11 @@ Definition reason_of (k : exec_kind) : reason :=
 
 Inductive op : Type :=
 | Get (req : option role) (shard : option nat) (order : list addr) (outs : addr -> outcome) (tc bc : addr -> Z)
-| ExecFail (a : addr) (k : exec_kind) (now : Z)     (* a checked-out server of this pool breaks *)
+| ExecFail (a : addr) (k : exec_kind) (now : Z) (client_gone : bool)
+    (* a checked-out server of this pool breaks while a statement is in flight; [client_gone]: the
+       client that sent the statement has closed or reset its socket meanwhile.  client.rs:2178,2195
+       call [pool.ban] BEFORE the error is written to the client, so the ban does not depend on it
+       (c07_exec_fail_independent_of_client). *)
 | AdminBan_ (h : nat) (d : Z) (now : Z)
 | AdminUnban (h : nat).
 
@@ -280,7 +284,7 @@ Inductive op : Type :=
 Definition step (c : cfg) (bl : banlist) (o : op) : banlist :=
   match o with
   | Get req shard order outs tc bc => snd (get c req shard order outs tc bc bl)
-  | ExecFail a k now => if in_servers c a then ban a (reason_of k) now bl else bl
+  | ExecFail a k now _ => if in_servers c a then ban a (reason_of k) now bl else bl
   | AdminBan_ h d now => admin_ban c h d now bl
   | AdminUnban h => admin_unban c h bl
   end.
